@@ -242,6 +242,8 @@ def obj_strategy(tier: str):
         'cross_map': st.booleans(),
         'mutate': st.sampled_from(['copy', 'orig']),
         'muts': st.lists(mutation_strategy(), min_size=1, max_size=8),
+        # outputs carry their own pickle state, so the copy module and pickle are further ways of copying one
+        'how': st.sampled_from(['method', 'method', 'copy.copy', 'copy.deepcopy', 'pickle']),
     })
 
 
@@ -427,7 +429,42 @@ def build_obj(kind, desc, vmf):
     raise AssertionError(kind)
 
 
-def do_copy(kind, obj, other):
+def copy_via(obj, how):
+    import copy
+    import pickle
+    if how == 'copy.copy':
+        return copy.copy(obj)
+    if how == 'copy.deepcopy':
+        return copy.deepcopy(obj)
+    if how.startswith('pickle'):
+        return pickle.loads(pickle.dumps(obj, protocol=int(how[6:] or pickle.HIGHEST_PROTOCOL)))
+    raise AssertionError(how)
+
+
+def collapse_copy(vis, as_param: bool):
+    """The other place visgroups get copied: collapsing the map that owns them as an instance with visgroups kept."""
+    import logging
+    logging.getLogger('srctools').setLevel(logging.CRITICAL)
+    from srctools.vmf import VMF, VisGroup
+    from srctools.math import Vec, Matrix
+    from srctools.instancing import Instance, InstanceFile, FixupStyle, collapse_one
+    target = VMF()
+    inst = Instance('inst', 'inst.vmf', Vec(), Matrix(), FixupStyle.PREFIX, (), ())
+    if as_param:
+        parent = VisGroup(target, 'Instances')
+        target.vis_tree.append(parent)
+        collapse_one(target, inst, InstanceFile(vis.vmf), visgroup=parent)
+        new = parent.child_groups
+    else:
+        collapse_one(target, inst, InstanceFile(vis.vmf), visgroup=True)
+        new = target.vis_tree
+    pos = [i for i, g in enumerate(vis.vmf.vis_tree) if g is vis][0]
+    return new[len(new) - len(vis.vmf.vis_tree) + pos], target
+
+
+def do_copy(kind, obj, other, how='method'):
+    if kind == 'output' and how != 'method':
+        return copy_via(obj, how)
     if kind == 'entity':
         return obj.copy(vmf_file=other) if other is not None else obj.copy()
     if kind == 'solid':
@@ -449,8 +486,18 @@ def execute_vmf(desc, ctx):
     obj = build_obj(kind, odesc, vmf)
     before = strip_own_ids(content_of(kind, obj))
     before_text = export_of(kind, obj)
-    cp = do_copy(kind, obj, other)
+    how = desc.get('how', 'method') if kind == 'output' else 'method'
+    if kind == 'visgroup' and desc.get('how', 'method') in ('copy.copy', 'copy.deepcopy'):
+        how = 'collapse_param' if desc['how'] == 'copy.copy' else 'collapse_true'
+        cp, other = collapse_copy(obj, how == 'collapse_param')
+        ctx.label('visgroup_how:' + how)
+    else:
+        cp = do_copy(kind, obj, other, how)
     ctx.label('kind:' + kind, 'cross_map' if other is not None else 'same_map')
+    if kind == 'output':
+        ctx.label('output_how:' + how)
+        if obj.inst_in or obj.inst_out:
+            ctx.label('output_has:inst_names')
     sides = all_sides(kind, obj)
     has_disp = any(s.is_disp for s in sides)
     has_points = any(s.strata_points for s in sides)
@@ -535,6 +582,7 @@ def kv_strategy(tier: str):
         'named_root': st.one_of(st.none(), gens.kv_name(4)),
         'mutate': st.sampled_from(['copy', 'orig']),
         'muts': st.lists(kv_mut_strategy(), min_size=1, max_size=8),
+        'how': st.sampled_from(['method', 'method', 'method', 'copy.deepcopy', 'pickle', 'pickle2']),
     })
 
 
@@ -616,7 +664,9 @@ def execute_kv(desc, ctx):
     children = [c01.build(n) for n in desc['tree']]
     root = Keyvalues.root(*children) if desc['named_root'] is None else Keyvalues(desc['named_root'], children)
     before = kv_shape(root)
-    cp = root.copy()
+    how = desc.get('how', 'method')
+    ctx.label('how:' + how)
+    cp = root.copy() if how == 'method' else copy_via(root, how)
     ctx.check(kv_shape(root) == before, 'source_unchanged', 'Keyvalues.copy() changed its source')
     ctx.check(kv_shape(cp) == before, 'complete', f'copy {kv_shape(cp)!r} differs from source {before!r}')
     ctx.check(cp.serialise() == root.serialise(), 'complete_export', 'copy serialises differently')
